@@ -126,6 +126,57 @@ pub fn check_pin(prop: &str, pin: &Pin, levels: &[u8]) -> CaseResult {
 
 pub fn c01_pins() -> Vec<Pin> {
     vec![
+        // ---- fixed on this tree (regression probes: must stay silent)
+        Pin {
+            name: "two_calls_in_expression",
+            src: "unsigned char a, b, c; char f(char x) { return x + 1; } char g(char x) { return x + 2; } void main() { a = 10; b = 20; c = f(a) + g(b); }",
+            init: &[],
+            x: 0,
+            y: 0,
+            expect: &[("c", 33)],
+        },
+        Pin {
+            name: "call_result_then_operand",
+            src: "unsigned char a, y, x; char f() { return 40; } void main() { y = 3; x = f() - (y & 1); }",
+            init: &[],
+            x: 0,
+            y: 0,
+            expect: &[("x", 39)],
+        },
+        Pin {
+            name: "eq_binds_looser_than_relational",
+            src: "unsigned char a, b, c, r; void main() { a = 1; b = 0; c = 1; r = 0; if (a == b < c) r = 1; }",
+            init: &[],
+            x: 0,
+            y: 0,
+            expect: &[("r", 1)],
+        },
+        Pin {
+            name: "flags_after_16bit_shift_assign",
+            src: "unsigned char g, l, r; unsigned short s; void main() { l = g; s >>= 5; r = 2; if (l) r = 1; }",
+            init: &[("g", 0), ("s", 0x0100)],
+            x: 0,
+            y: 0,
+            expect: &[("r", 2)],
+        },
+        Pin {
+            name: "flags_after_sty_assign",
+            src: "unsigned char g, l, r; void main() { l = g; l = Y; r = 7; switch (l) { case 0: r = 1; } }",
+            init: &[("g", 5)],
+            x: 0,
+            y: 0,
+            expect: &[("r", 1)],
+        },
+        Pin {
+            name: "csleep_then_flag_test",
+            src: "unsigned char a, r; void main() { X = a; csleep(5); r = 0; if (X == 0) r = 1; }",
+            init: &[("a", 0)],
+            x: 9,
+            y: 0,
+            expect: &[("r", 1)],
+        },
+        // ---- recorded findings (see known_findings.json): the random pools are kept out of
+        // these families by the generator rules named after them
         Pin {
             name: "postinc_in_condition",
             src: "unsigned char i, n; void main() { i = 0; n = 7; if (i++ == 3) n = 1; }",
@@ -143,15 +194,7 @@ pub fn c01_pins() -> Vec<Pin> {
             expect: &[("n", 3), ("i", 255)],
         },
         Pin {
-            name: "two_calls_in_expression",
-            src: "unsigned char a, b, c; char f(char x) { return x + 1; } char g(char x) { return x + 2; } void main() { a = 10; b = 20; c = f(a) + g(b); }",
-            init: &[],
-            x: 0,
-            y: 0,
-            expect: &[("c", 33)],
-        },
-        Pin {
-            name: "signed_less_than_far_apart",
+            name: "signed_relational_no_overflow_flag",
             src: "signed char a, b; unsigned char r; void main() { r = 0; if (a < b) r = 1; }",
             init: &[("a", 100), ("b", 0x9c)], // 100 < -100 is false
             x: 0,
@@ -159,13 +202,189 @@ pub fn c01_pins() -> Vec<Pin> {
             expect: &[("r", 0)],
         },
         Pin {
-            name: "eq_binds_looser_than_relational",
-            src: "unsigned char a, b, c, r; void main() { a = 1; b = 0; c = 1; r = 0; if (a == b < c) r = 1; }",
+            name: "wide_dest_bnot",
+            src: "unsigned short s; void main() { s = ~s; }",
+            init: &[("s", 0x1234)],
+            x: 0,
+            y: 0,
+            expect: &[("s", 0xedcb)],
+        },
+        Pin {
+            name: "wide_dest_comparison_value",
+            src: "unsigned char g; short s; void main() { s = (g == 101) + s; }",
+            init: &[("g", 255), ("s", 0)],
+            x: 0,
+            y: 0,
+            expect: &[("s", 0)],
+        },
+        Pin {
+            name: "wide_dest_call",
+            src: "unsigned short s; char f() { return 200; } void main() { s = 0x5555; s = f(); }",
             init: &[],
             x: 0,
             y: 0,
-            // C: a == (b < c) -> 1 == 1 -> true
+            expect: &[("s", 200)],
+        },
+        Pin {
+            name: "wide_dest_ternary",
+            src: "unsigned char g, a, b; unsigned short s; void main() { s = g ? a : b; }",
+            init: &[("g", 1), ("a", 7), ("b", 9), ("s", 0x4444)],
+            x: 0,
+            y: 0,
+            expect: &[("s", 7)],
+        },
+        Pin {
+            name: "compare_const_exceeds_type",
+            src: "unsigned char g, r; void main() { r = 0; if (g >= 4660) r = 1; }",
+            init: &[("g", 0x40)], // 4660 = 0x1234: a char is never >= 4660
+            x: 0,
+            y: 0,
+            expect: &[("r", 0)],
+        },
+        Pin {
+            name: "unsigned_relational_zero",
+            src: "unsigned char l, r; void main() { r = 0; X = 0; while (X != 5) { if (l > 0) break; X++; } r = X; }",
+            init: &[("l", 16)],
+            x: 0,
+            y: 0,
+            expect: &[("r", 0)],
+        },
+        Pin {
+            name: "unsigned_less_than_zero",
+            src: "unsigned char g, r; void main() { r = 0; if (g < 0) r = 1; }",
+            init: &[("g", 200)],
+            x: 0,
+            y: 0,
+            expect: &[("r", 0)],
+        },
+        Pin {
+            name: "cond_value_in_arith",
+            src: "unsigned char a, b, c, r; void main() { r = (a ^ b) + (c || c); }",
+            init: &[("a", 6), ("b", 3), ("c", 1)],
+            x: 0,
+            y: 0,
+            expect: &[("r", 6)],
+        },
+        Pin {
+            name: "ysave_in_condition",
+            src: "unsigned char arr[8]; unsigned char l, n; void main() { n = 0; for (Y = 0; Y < 3; Y++) { if (arr[l & 7]) continue; n++; } }",
+            init: &[("l", 0)],
+            x: 0,
+            y: 0,
+            // arr is filled with 0xAA by the pin runner: every iteration continues, the loop still runs 3 times
+            expect: &[("n", 0), ("Y", 3)],
+        },
+        Pin {
+            name: "cmp_indexed_vs_register",
+            src: "unsigned char arr[8]; unsigned char r; void main() { Y = 3; r = arr[Y] > Y; }",
+            init: &[],
+            x: 0,
+            y: 0,
+            expect: &[("r", 1)], // arr[3] = 0xAA > 3
+        },
+        Pin {
+            name: "y_scratch_with_y",
+            src: "unsigned char arr[8]; unsigned char g; void main() { g = 5; Y = 2; arr[g & 7] = Y; g = arr[5]; }",
+            init: &[],
+            x: 0,
+            y: 0,
+            expect: &[("g", 2)],
+        },
+        Pin {
+            name: "deref_with_y",
+            src: "unsigned char arr[8]; char *p; unsigned char g; void main() { p = arr; arr[0] = 9; Y = 2; arr[Y] = *p; g = arr[2]; }",
+            init: &[],
+            x: 0,
+            y: 0,
+            expect: &[("g", 9)],
+        },
+        Pin {
+            name: "switch_computed_case0",
+            src: "unsigned char g, r; void main() { r = 0; switch (g & 1) { case 1: case 0: r = 5; } }",
+            init: &[("g", 2)],
+            x: 0,
+            y: 0,
+            expect: &[("r", 5)],
+        },
+        Pin {
+            name: "short_array_rmw",
+            src: "short sa[4]; short s; void main() { sa[1] = 0x0300; sa[1] >>= 1; s = sa[1]; }",
+            init: &[],
+            x: 0,
+            y: 0,
+            expect: &[("s", 0x0180)],
+        },
+        Pin {
+            name: "wide_compare_le_gt",
+            src: "unsigned short a, b; unsigned char r; void main() { r = 0; if (a <= b) r = 1; }",
+            init: &[("a", 0), ("b", 0xffff)],
+            x: 0,
+            y: 0,
             expect: &[("r", 1)],
+        },
+        Pin {
+            name: "flags_leak_across_functions",
+            src: "unsigned char g0, g2, r; void f0() { g2 &= g0; } void main() { if (g2) r = 1; else r = 2; }",
+            init: &[("g2", 0), ("g0", 1)],
+            x: 0,
+            y: 0,
+            expect: &[("r", 2)],
+        },
+        Pin {
+            name: "mixed_signedness_follows_left",
+            src: "signed char l; unsigned char g, r; void main() { r = l + g >> 6; }",
+            init: &[("l", 0xff), ("g", 0x81)], // -1 + 129 = 128 (also 0x80 in 8 bits, unsigned): 128 >> 6 = 2
+            x: 0,
+            y: 0,
+            expect: &[("r", 2)],
+        },
+        Pin {
+            name: "wide_condition_arith",
+            src: "unsigned short s; unsigned char r; void main() { r = 0; if (s & s) r = 1; }",
+            init: &[("s", 0x8000)],
+            x: 0,
+            y: 0,
+            expect: &[("r", 1)],
+        },
+        Pin {
+            name: "nested_call_clobbers_static_params",
+            src: "unsigned char r; char f(char a, char b) { return a - b; } void main() { r = f(10, f(3, 1)); }",
+            init: &[],
+            x: 0,
+            y: 0,
+            expect: &[("r", 8)],
+        },
+        Pin {
+            name: "y_scratch_in_return",
+            src: "unsigned char arr[8]; char *p; unsigned char r; char f() { return *p; } void main() { p = arr; Y = 77; r = f(); r = Y; }",
+            init: &[],
+            x: 0,
+            y: 0,
+            expect: &[("r", 77)],
+        },
+        Pin {
+            name: "y_scratch_call_arg",
+            src: "unsigned char arr[8]; unsigned char l, r; void f(char a, char b) { r = b; } void main() { l = 3; f(1, arr[l & 7]); }",
+            init: &[],
+            x: 0,
+            y: 0,
+            expect: &[("r", 0xAA)],
+        },
+        Pin {
+            name: "y_scratch_with_call",
+            src: "unsigned char arr[8]; char *p; unsigned char r; char f(char a, char b) { return 1; } void main() { p = arr; arr[0] = 4; r = *p + f(2, 3); }",
+            init: &[],
+            x: 0,
+            y: 0,
+            expect: &[("r", 5)],
+        },
+        Pin {
+            name: "deref_in_ternary",
+            src: "unsigned char arr[8]; char *p; unsigned char g, r; void main() { p = arr; arr[0] = 4; Y = 66; r = 129 <= g ? *p : 247; g = Y; }",
+            init: &[("g", 0)], // the arm without the dereference still "restores" Y from a cell nobody saved
+            x: 0,
+            y: 0,
+            expect: &[("r", 247), ("g", 66)],
         },
     ]
 }
